@@ -152,6 +152,18 @@ def gen_sequence(rng, quick: bool) -> Dict[str, Any]:
 
     steps: List[Dict[str, Any]] = []
     ntakes = 0
+    if rng_mode == "one" and rng.random() < 0.3:
+        # a training job's life: one app_state dict, reused for every call - take, (draws), restore [resume], take, (draws),
+        # restore.  The RNG statement must hold in every cycle, so the calls must not disturb the dict they are given.
+        one = app_desc(keys, rng_keys, False)
+        trees = {k: _tree_desc(rng, contig=True) for k in keys}     # restored in place: targets must be writable tensors
+        for c in range(2):
+            steps.append({"k": "take", "async": rng.random() < 0.3, "app": one, "reuse": True})
+            steps.append({"k": "draw", "n": rng.randint(1, 9)})
+            steps.append({"k": "restore", "snap": c, "app": one, "reuse": True})
+            ntakes += 1
+        knobs = {"chunk": None, "slab": rng.choice([64, None]), "nobatch": rng.random() < 0.4, "budget": None, "conc": None, "shard": None}
+        return {"seed": rng.randrange(2 ** 31), "knobs": knobs, "trees": trees, "extra": [], "steps": steps}
     for _ in range(rng.choice([1, 1, 2, 2, 3])):
         r = rng.random()
         if r < 0.25:
@@ -353,6 +365,7 @@ def run_sequence(ctx: Ctx, seq: Dict[str, Any], verbose: bool = False) -> bool:
         def main(rank: int, pg):
             nonlocal nontrivial
             ntake = 0
+            reused_app = None
             for si, st in enumerate(seq["steps"]):
                 if st["k"] == "draw":
                     if rank == 0:
@@ -375,7 +388,12 @@ def run_sequence(ctx: Ctx, seq: Dict[str, Any], verbose: bool = False) -> bool:
                     except Exception:
                         return
                     continue
-                app = _build_app(rec, st["app"], trees, for_restore=(st["k"] == "restore"))
+                if st.get("reuse") and reused_app is not None:
+                    app = reused_app
+                else:
+                    app = _build_app(rec, st["app"], trees, for_restore=(st["k"] == "restore" and not st.get("reuse")))
+                    if st.get("reuse"):
+                        reused_app = app
                 n_rng = sum(1 for it in st["app"] if it.get("rng"))
                 draws_sorted = [it["sd"] for it in sorted((it for it in st["app"] if not it.get("rng")), key=lambda it: it["key"])]
                 before = rec.state()
